@@ -829,7 +829,13 @@ def strip_copies(e):
 class Index:
     """All bodies, ADTs, consts and statics of one facts file, plus the crate call graph."""
 
+    _serial = 0
+
     def __init__(self, facts):
+        # caches kept outside the index are keyed by this number, never by id(): a worker that analyses several trees one
+        # after another can see the id of a collected index again
+        Index._serial += 1
+        self.uid = Index._serial
         self.facts = facts
         self.bodies = {}
         for j in facts["bodies"]:
